@@ -16,7 +16,7 @@ func init() {
 	register(&PropDef{ID: "C19", Level: "other", Run: runC19,
 		Explanation: "Data-race freedom of the shared components as a lock-set discipline, decided for every access on every call path (schedule-independent): each field of the key list, " +
 			"cipher entries, replay history, association table and associations, shared listeners and their handles, the listener manager and the metrics collectors is classified as " +
-			"(i) immutable after construction (no store on an existing object), (ii) guarded (the intersection of must-hold lock sets over all accesses contains one lock class, exclusively held for writes), " +
+			"(i) immutable after construction (no store on an existing object), (ii) guarded (the intersection of must-hold lock sets over all accesses contains one lock class of the component's own package — never a client's lock —, exclusively held for writes; for map fields every lookup, update, delete, len and iteration step through the loaded reference holds it too), " +
 			"(iii) confined to one goroutine kind that also creates the object, (iv) a sync primitive, or (v) write-once before the go statement that publishes it; a field in none of the classes is a violation " +
 			"(GUARDED; every struct type of the module that carries a mutex is included, found by shape). (ATOMIC) every function that takes one of the guarding locks takes it exactly once, so check-then-act sequences stay inside one critical section. (LOOPVAR) no goroutine started inside a loop captures by reference a variable that lives outside the loop and is assigned in it.",
 		NotDecided: "linearizability of results (only the single-critical-section shape is checked); races inside Prometheus / the SDK (own locks, trusted); per-connection objects that are not shared.",
